@@ -280,6 +280,14 @@ def mergeIfPresent (m : Mach) (f : Res) (l : List Nat) (vals : List (List Int)) 
         | (c, some .ValueError) => .ok c        -- swallowed by `except ValueError`
         | (_, some e) => .error e
 
+/-- the new Result object of one parameter combination: an empty object, merged with the
+    first operand's result of that combination if it has one, then with the second's -/
+def cellOf (m : Mach) (f : Res) (l1 l2 : List Nat) (v1 v2 : List (List Int)) (combo : List Int) :
+    Except PyErr Res :=
+  match mergeIfPresent m f l1 v1 combo with
+  | .error e => .error e
+  | .ok r1 => mergeIfPresent m r1 l2 v2 combo
+
 /-- the Result objects created for one result name, one per combination -/
 def combineName (m : Mach) (f : Res) (l1 l2 : List Nat) (v1 v2 : List (List Int)) :
     List (List Int) → Except PyErr (List Res)
